@@ -375,7 +375,7 @@ func CheckC15(run *evid.Run) {
 				if forked && (q.Lower != "none" || q.Amount != nil) {
 					run.NonTrivial(fmt.Sprintf("%s%d/%s/%s/rel%v/h%d", q.Upper, len(q.UpperH), q.Lower, ac, q.Related, minInt(len(o.Heads), 3)))
 				}
-				if i == 0 && r == 0 && qn < 2 {
+				if qn < 2 && ((i == 0 && r == 0) || run.NumSamples() < 2) {
 					run.Sample(map[string]any{"query": q.String(), "emitted": hx.Shorts(res.out), "log_size": size})
 				}
 			}
